@@ -197,6 +197,22 @@ func init() {
 			}
 			c.runBFS("bfs-T1-mixed-epochs", sys, d, nil)
 		}
+		// the same on a store (lazy and TTL-honouring) with restarts: what comes back from the store obeys its own kind and lifetime
+		for _, kind := range []string{"ttl", "lazy"} {
+			cfg := env.BasicConfig(config.CacheConfig{HitForPass: "2s", Store: "fault://c04mixed" + kind})
+			sys := &keySys{cfg: cfg, cfgKey: "c04mixed" + kind, P: 2, store: kind, events: []keyEvent{
+				{Name: "GET(origin:max-age=1)", Kind: "get", Ans: "cacheable", T: 1},
+				{Name: "GET(origin:uncacheable)", Kind: "get", Ans: "uncacheable"},
+				{Name: "tick+1", Kind: "tick", D: 1},
+				{Name: "tick+2", Kind: "tick", D: 2},
+				{Name: "restart(memory lost, store kept)", Kind: "restart"},
+			}}
+			d := 6
+			if c.Thorough() {
+				d = 8
+			}
+			c.runBFS("bfs-T1-mixed-epochs-store-"+kind, sys, d, nil)
+		}
 		// the origin's Date header (correct, ahead, behind) has no say in the lifetime
 		for _, od := range []string{"0", "+8", "-8"} {
 			cfg := env.BasicConfig(config.CacheConfig{})
